@@ -264,6 +264,25 @@ func declaredConstraints(pretty, raw *routeParser) {
 	}
 }
 
+// inheritedConstraints lets the parameters a mounted route brought along keep the constraints they were
+// registered with (they know the custom constraints of the sub-app); the parameters of the mount
+// prefix come first and keep what the parent app parsed.
+func inheritedConstraints(prefixed, registered *routeParser) {
+	i, j := len(prefixed.segs)-1, len(registered.segs)-1
+	for i >= 0 && j >= 0 {
+		switch {
+		case !prefixed.segs[i].IsParam:
+			i--
+		case !registered.segs[j].IsParam:
+			j--
+		default:
+			prefixed.segs[i].Constraints = registered.segs[j].Constraints
+			i--
+			j--
+		}
+	}
+}
+
 // addParameterMetaInfo add important meta information to the parameter segments
 // to simplify the search for the end of the parameter
 func addParameterMetaInfo(segs []*routeSegment) []*routeSegment {
